@@ -1282,7 +1282,7 @@ impl<'a> Evaluator<'a> {
                         }
                     }
                     "unwrap_or_else" if is_some => Ok(inner.unwrap()),
-                    "unwrap_or_else" if is_none && mc.args.len() == 1 => self.apply_closure(&mc.args[0], &[], env),
+                    "unwrap_or_else" if is_none && mc.args.len() == 1 => self.apply_closure_mut(&mc.args[0], &[], env),
                     "unwrap_or_default" if is_some => Ok(inner.unwrap()),
                     "ok" if matches!(&recv, Val::Ctor(n, ..) if n == "Ok" || n == "Err") => match recv {
                         Val::Ctor(n, p, _) if n == "Ok" => Ok(Val::some(p.into_iter().next().unwrap_or(Val::Unit))),
@@ -1329,6 +1329,28 @@ impl<'a> Evaluator<'a> {
                     }
                 }
                 Ok(Val::Unit)
+            }
+            Expr::While(w) => {
+                // bounded unrolling: a loop that does not finish within the bound is an analysis failure, not a result
+                for _ in 0..10_000 {
+                    match self.eval(&w.cond, env)? {
+                        Val::Bool(false) => return Ok(Val::Unit),
+                        Val::Bool(true) => {}
+                        o => return Err(format!("while condition evaluated to {}", o.show())),
+                    }
+                    let mut e2 = env.clone();
+                    let r = self.eval_block(&w.body, &mut e2)?;
+                    merge_back(env, &e2);
+                    if let Val::Ctor(n, _, _) = &r {
+                        if n == "$return" {
+                            return Ok(r);
+                        }
+                        if n == "$break" {
+                            return Ok(Val::Unit);
+                        }
+                    }
+                }
+                Err("while loop did not terminate within 10000 iterations".into())
             }
             Expr::Try(t) => match self.eval(&t.expr, env)? {
                 Val::Ctor(n, p, _) if n == "Ok" || n == "Some" => Ok(p.into_iter().next().unwrap_or(Val::Unit)),
